@@ -621,3 +621,67 @@ Theorem comment_empty_is_none b c i :
 Proof. reflexivity. Qed.
 Theorem spec_comment_empty_is_none i : spec (with_comment i (Some [])) = spec (with_comment i None).
 Proof. reflexivity. Qed.
+
+(* ------------------------------------------------------------------ last round *)
+(* '%s' substitution: the argument is inserted verbatim and never scanned; text without '%' is copied *)
+Lemma format_s_other c r args : c <> 37 -> format_s (c :: r) args = c :: format_s r args.
+Proof.
+  intros H. destruct c as [|p]; [reflexivity|].
+  repeat (destruct p as [p|p|]; try reflexivity).
+  exfalso; apply H; reflexivity.
+Qed.
+
+Theorem format_s_no_rescan pre suf a rest :
+  Forall (fun c => c <> 37) pre ->
+  format_s (pre ++ 37 :: 115 :: suf) (a :: rest) = pre ++ a ++ format_s suf rest.
+Proof.
+  induction 1 as [|c r Hc _ IH]; [reflexivity|].
+  cbn [app]. rewrite (format_s_other c _ _ Hc), IH. reflexivity.
+Qed.
+
+Theorem format_s_plain s args : Forall (fun c => c <> 37) s -> format_s s args = s.
+Proof.
+  induction 1 as [|c r Hc _ IH]; [reflexivity|]. rewrite (format_s_other c _ _ Hc), IH. reflexivity.
+Qed.
+
+(* the predicate-mismatch message: fixed text, function name, fixed text, predicate text, fixed text *)
+Example ex_predicate_mismatch fn p : exists a b c,
+  msite_ref [112; 109; 95; 115; 105; 110; 103; 108; 101] [fn; p] = Some (n_HTTPNotFound, a ++ fn ++ b ++ p ++ c, None).
+Proof.
+  exists [112; 114; 101; 100; 105; 99; 97; 116; 101; 32; 109; 105; 115; 109; 97; 116; 99; 104; 32; 102; 111; 114; 32; 118; 105; 101; 119; 32],
+         [32; 40], [41].
+  reflexivity.
+Qed.
+
+(* exception_response: the class picked for a status code has that code, a public name, and is in the table *)
+Lemma status_class_from_sound code l : forall acc c,
+  (forall a, acc = Some a -> In a classes /\ c_code a = code /\ status_entry a = true) ->
+  (forall x, In x l -> In x classes) ->
+  status_class_from code l acc = Some c -> In c classes /\ c_code c = code /\ status_entry c = true.
+Proof.
+  induction l as [|x r IH]; intros acc c Hacc Hl H; [exact (Hacc c H)|].
+  cbn [status_class_from] in H. apply (IH _ c) in H; [exact H| |intros y Hy; apply Hl; right; exact Hy].
+  intros a Ha. destruct (status_entry x && text_eqb (c_code x) code) eqn:E.
+  - injection Ha as <-. apply andb_true_iff in E as [E1 E2]. apply text_eqb_eq in E2.
+    split; [apply Hl; left; reflexivity|split; assumption].
+  - exact (Hacc a Ha).
+Qed.
+
+Theorem status_class_sound code c :
+  status_class code = Some c ->
+  In c classes /\ c_code c = code /\ startswith [95] (c_name c) = false /\ mem_text (c_name c) status_map_excluded = false.
+Proof.
+  intros H. destruct (status_class_from_sound code classes None c) as (Hin & Hc & He); auto; [intros a Ha; discriminate|].
+  unfold status_entry in He. apply andb_true_iff in He as [He _]. apply andb_true_iff in He as [H1 H2].
+  repeat split; auto; [destruct (startswith [95] (c_name c)); [discriminate|reflexivity]
+                      |destruct (mem_text (c_name c) status_map_excluded); [discriminate|reflexivity]].
+Qed.
+
+(* which class the factory picks for the codes shared by several classes, and for an unknown code *)
+Example ex_status_classes :
+  option_map c_name (status_class [52; 48; 52]) = Some n_HTTPNotFound /\
+  option_map c_name (status_class [52; 48; 48]) = Some n_HTTPBadRequest /\
+  option_map c_name (status_class [52; 48; 51]) = Some n_HTTPForbidden /\
+  option_map c_name (status_class [51; 48; 49]) = Some n_HTTPMovedPermanently /\
+  status_class [57; 57; 57] = None.
+Proof. vm_compute. repeat split; reflexivity. Qed.
